@@ -2,4 +2,4 @@ From Coq Require Import Extraction ExtrOcamlBasic NArith ZArith.
 From LTV.C03 Require Import Model.
 Set Extraction Optimize.
 Extraction Language OCaml.
-Extraction "extracted/c03_model.ml" run_real decode_real hinit one_msg close_eof Z.of_N.
+Extraction "extracted/c03_model.ml" run_real run_b_real decode_real hinit one_msg close_eof Z.of_N.
